@@ -80,6 +80,19 @@ Definition check_meth (c : meth_case) : list nat :=
   (if forallb (slist_eqb (get_methods names hasc)) impl && negb (Nat.eqb (List.length impl) 0) then [] else [1%nat]) ++
   (if Nat.eqb (List.length impl) 1 then [] else [3%nat]).
 
+(* ------------------------------------------------------------------ collect / sort / use sites
+   case = (the keys the site ranges over, in the order the test wrote them; the preferred order the
+   site is given ([] at the plain sorted sites); the order in which the real code produced them)
+   1 = model/implementation disagree *)
+Definition sorted_case := (list string * list string * list string)%type.
+Definition check_sorted (c : sorted_case) : list nat :=
+  let '(keys, preferred, impl) := c in
+  let model := match preferred with
+               | [] => sorted_range (fun _ => true) (fun acc k => (acc ++ [k])%list) [] keys
+               | _ => preferred_then_sorted preferred keys
+               end in
+  if slist_eqb model impl then [] else [1%nat].
+
 (* ------------------------------------------------------------------ (A ; B) versus (B)
    case = (cell table, abstract A, abstract B, did B's real output differ)
    1 = model/implementation disagree on whether B can tell; 2 = B could tell (the clause fails) *)
